@@ -79,7 +79,7 @@ BASE = {
     },
 }
 
-REFKIND = {"global.get": "G", "global.set": "G", "call": "F", "ref.func": "F", "i32.load": "M", "memory.size": "M"}
+REFKIND = {"global.get": "G", "global.set": "G", "call": "F", "return_call": "F", "ref.func": "F", "i32.load": "M", "memory.size": "M"}
 
 
 # ------------------------------------------------------------------------------------------------ linked modules
@@ -412,6 +412,9 @@ class Sem:
             if o == "i32.const": st.append(self.d.const(t[1]))
             elif o == "global.get": st.append(self.gval(t[1], depth))
             elif o == "call": st.append(self.fval(t[1], depth))
+            elif o == "return_call":
+                st = [self.fval(t[1], depth)]      # a tail call: the function's value is the callee's
+                break
             elif o == "ref.func": st.append(self.fval(t[1], depth))
             elif o == "ref.null": st.append(self.d.const(0xFFFFFFFF))
             elif o == "i32.add": b = st.pop(); a = st.pop(); st.append(self.d.add(a, b))
@@ -534,6 +537,9 @@ def menu(kind):
         creator("add_import_func", lambda k, c: {"op": "add_import_func", "name": "nif%d" % k}, "F")
         creator("add_local_func(call base local)", lambda k, c: {"op": "add_local_func", "body": [["call", B(2)], ["i32.const", 900 + k], ["i32.add"]]}, "F")
     if kind in ("F",):
+        creator("add_local_func(return_call base local)", lambda k, c: {"op": "add_local_func", "body": [["return_call", B(3)]]}, "F")
+        creator("inject return_call(base import)", lambda k, c: {"op": "inject", "func": B(4), "at": 0, "mode": "before", "ops": [["return_call", B(1)]]}, None)
+        creator("replace_import(unreferenced import)", lambda k, c: {"op": "replace_import", "import_id": 3, "body": [["call", B(2)], ["i32.const", 780 + k], ["i32.add"]]}, None)
         creator("add_local_func(call earlier)", lambda k, c: {"op": "add_local_func", "body": [["call", R(c["F"][-1])], ["i32.const", 950 + k], ["i32.add"]]} if c["F"] else None, "F")
         creator("inject call(base import)", lambda k, c: {"op": "inject", "func": B(4), "at": 0, "mode": "after", "ops": [["call", B(1)], ["i32.add"]]}, None)
         creator("inject call(earlier)", lambda k, c: {"op": "inject", "func": B(4), "at": 0, "mode": "after", "ops": [["call", R(c["F"][-1])], ["i32.add"]]} if c["F"] else None, None)
